@@ -20,6 +20,26 @@ CHECKS = {
         note=TB + " Decides: never panics, always terminates, allocation requests bounded. Does not measure the constants of the "
              "time/heap bound. Two audited sites are re-validated structurally on every run (tables/audited_sites.tsv).",
         ref="DESIGN.md section 4 C01"),
+    "C12": dict(
+        technique="call-graph reachability + MIR abstract interpretation of panic sites + constructor scan for fmt::Error",
+        text="From every Debug/Display/Clone/Hash/PartialEq impl of the crate's exported types, every into_owned, the TXT attribute "
+             "and string conversions, match_qtype/match_qclass and the Name queries (roots discovered from the type-checked "
+             "program, floors on their number), no undischarged panic site is reachable, and no Display/Debug impl constructs "
+             "fmt::Error itself (which would make to_string/format!/{:?} panic). The property is a panic-freedom statement over "
+             "arbitrary byte contents, so a reachability + discharge argument decides it for all values.",
+        note=TB + " from_utf8(..).unwrap()-style sites have no discharge rule (contents are arbitrary bytes). Allocation sizes "
+             "are C01's concern and are not panic sites here.",
+        ref="DESIGN.md section 4 C12"),
+    "C14": dict(
+        technique="cross-crate call-graph reachability + MIR abstract interpretation of panic sites + lock-region rule",
+        text="From the receive loops and packet handlers of the responder, the service-discovery listener and the one-shot "
+             "resolver (sync and async back-ends, coroutine state machines included) no undischarged panic site is reachable, "
+             "across the crate boundary into simple_dns; LockResult::unwrap sites are discharged because no panic site is "
+             "reachable from code that runs under a guard. Decides the panic-freedom clause for every datagram and store state.",
+        note=TB + " Does not decide 'any reply produced is a parseable DNS message' (C02/C03). Sites excluded by a stated "
+             "precondition are listed in tables/assumed_preconditions.tsv and in the evidence; sites inside tokio::select! "
+             "scaffolding are treated as external code; three async buf[..count] sites are audited with a structural predicate.",
+        ref="DESIGN.md section 4 C14"),
 }
 
 NA = {
